@@ -1633,9 +1633,16 @@ class FE:
             return False
         m_ = re.match(r'llvm\.([us])(add|sub|mul)\.with\.overflow\.i(\d+)$', n)
         if m_:
-            t = ins['rty']; et = s.res(t).els[0]
-            ct = s.cty(et) if m_.group(1) == 'u' else em.sty(et)
-            out.append('{ %s o_; %s.f1 = __builtin_%s_overflow((%s)%s, (%s)%s, &o_); %s.f0 = (%s)o_; }' % (ct, r, m_.group(2), ct, A[0], ct, A[1], r, s.cty(et)))
+            t = ins['rty']; et = s.res(t).els[0]; nb = et.n
+            sg = m_.group(1) == 's'; opn = m_.group(2); cet = s.cty(et)
+            # explicit double-width arithmetic (constant-folds in CBMC, unlike __builtin_*_overflow)
+            wide_u = 'uint64_t' if 2 * nb <= 64 else 'VERIF_UBVW(%d)' % (2 * nb); wide_s = 'int64_t' if 2 * nb <= 64 else 'VERIF_SBVW(%d)' % (2 * nb)
+            o = {'add': '+', 'sub': '-', 'mul': '*'}[opn]
+            if not sg:
+                out.append('{ %s w_ = (%s)%s %s (%s)%s; %s.f0 = (%s)w_; %s.f1 = (w_ != (%s)(%s)w_); }' % (wide_u, wide_u, A[0], o, wide_u, A[1], r, cet, r, wide_u, cet))
+            else:
+                st = em.sty(et)
+                out.append('{ %s w_ = (%s)(%s)%s %s (%s)(%s)%s; %s.f0 = (%s)w_; %s.f1 = (w_ != (%s)(%s)(%s)w_); }' % (wide_s, wide_s, st, A[0], o, wide_s, st, A[1], r, cet, r, wide_s, st, cet))
             return False
         if n == 'llvm.trap':
             out.append('__CPROVER_assert(0, "llvm.trap"); __CPROVER_assume(0);'); return False
@@ -1850,7 +1857,7 @@ def emit_module(m, opts):
                 if calls[n] & em.yielding or (indirect[n] and taken):
                     em.yielding.add(n); ych = True
         for nn in list(em.yielding):
-            if any(u in nn for u in opts.no_yield): em.yielding.discard(nn)
+            if any(u in nn for u in opts.no_yield) or any(u in nn for u in opts.unreachable): em.yielding.discard(nn)
         em.addr_taken_yielding = sorted(g for g in em.yielding if is_addr_taken(g))
         # recursion among yielding functions is not supported (static frames)
         for n in em.yielding:
